@@ -65,6 +65,7 @@ import DateutilVerif.Proofs.RRuleSecondlyBS
 import DateutilVerif.Proofs.RRuleMinutelyBHM
 import DateutilVerif.Proofs.RRuleWeeklyW
 import DateutilVerif.Proofs.RRuleInterleave
+import DateutilVerif.Proofs.RRuleDropInterval
 import DateutilVerif.Proofs.RRuleNthWYearly
 import DateutilVerif.Proofs.RRuleNthWYM
 import DateutilVerif.Proofs.RRuleNthEYearly
@@ -310,27 +311,27 @@ theorem iter_count (r : Rule) (n : Nat) (c : Int) (hc : r.count = some c) :
     exact run_count r n st c ((init_count r st hinit).trans hc)
 
 /-- **strictly increasing, no duplicates** — every rule the constructor accepts (valid start,
-    INTERVAL ≥ 1, week start 0..6), all seven frequencies, every combination of BY parts including
+    week start 0..6; INTERVAL ≥ 1 is now implied by `construct a = .ok r`, see `construct_interval_positive`), all seven frequencies, every combination of BY parts including
     BYSETPOS and the known-defect classes, any COUNT / UNTIL, every number of periods: the yielded
     instants are strictly increasing.  (Invariants: the cursor is a valid date with rebuilt year
     facts; `__mod_distance` and the MINUTELY / SECONDLY reachability loops advance by a positive
     multiple of INTERVAL; consecutive periods occupy disjoint increasing windows; inside a period the
     candidates are `sorted days × strictly sorted time set`, or the sorted duplicate-free BYSETPOS list.) -/
-theorem iter_strictMono (a : Args) (r : Rule) (h : construct a = .ok r) (hi : 1 ≤ a.interval)
+theorem iter_strictMono (a : Args) (r : Rule) (h : construct a = .ok r)
     (hw : 0 ≤ a.wkst.getD 0 ∧ a.wkst.getD 0 ≤ 6) (hv : a.dtstart.Valid)
     (hf : 0 ≤ a.freq ∧ a.freq ≤ 6) (n : Nat) :
     (iter r n).1.Pairwise (fun x y => x.secs < y.secs) :=
-  iter_strictMono_all a r h hi hw hv hf n
+  iter_strictMono_all' a r h hw hv hf n
 
 /-- **real datetimes, strictly increasing at the `datetime` level** — all seven frequencies, every
     constructed rule: every yielded value went through a successful `date.fromordinal` (ordinal in
     1..3652059) and carries a valid wall time of the period's time set, so it is a valid `datetime`
     with whole seconds; and the `datetime`s themselves are strictly increasing. -/
-theorem iterDT_strictMono_valid (a : Args) (r : Rule) (h : construct a = .ok r) (hi : 1 ≤ a.interval)
+theorem iterDT_strictMono_valid (a : Args) (r : Rule) (h : construct a = .ok r)
     (hw : 0 ≤ a.wkst.getD 0 ∧ a.wkst.getD 0 ≤ 6) (hv : a.dtstart.Valid)
     (hf : 0 ≤ a.freq ∧ a.freq ≤ 6) (n : Nat) :
     (iterDT r n).1.Pairwise (fun s t => s.toMicros < t.toMicros) ∧ ∀ t ∈ (iterDT r n).1, t.Valid ∧ t.us = 0 :=
-  RRule.iterDT_strictMono_valid a r h hi hw hv hf n
+  RRule.iterDT_strictMono_valid' a r h hw hv hf n
 
 /-- **whole seconds**: every yielded datetime has `microsecond = 0` (the tzinfo is the rule's
     opaque tag `r.tz`, attached to every value by construction) -/
